@@ -4,6 +4,7 @@ R12.1  every import statement of the 8 RUNTIME_FILES payload modules is stdlib /
 R12.2  closure: relative imports of runtime files target other runtime files or files the emitters generate;
        every RUNTIME_FILES source exists
 R12.3  verbatim copy: in CoreEmitter.emit the value written is the unmodified `f.read()` result
+R12.6  the post-processor never receives the runtime copies (file lists are filtered against RUNTIME_FILES)
 R12.4  import registrations (add_import & co.): module argument never names the generator or a foreign package
 R12.5  import statements embedded in templates obey the same allow-list
 """
@@ -394,6 +395,7 @@ def run(repo: Repo, rep: Report, tier: str) -> None:
                     rep.violation("R12.5", sub, f"{mn}|template-import|{modtxt.replace(HOLE, '{}')}", f"template {why}", loc)
     rep.count("R12.5:template_import_statements", n_tmpl)
     rep.require(n_tmpl >= 30, f"R12.5: only {n_tmpl} template-embedded import statements found (floor 30)")
+    rule_postprocess_skips_runtime_copies(repo, rep, "R12.6")
 
 
 def _inside_stmt(node: ast.AST, anc: ast.AST) -> bool:
@@ -459,3 +461,49 @@ def _check_module_expr(rep: Report, rule: str, fn: Function, call: ast.Call, arg
             rep.ok(rule, sub, f"variable bound to constant(s) {[const_str(d) for d in consts]}", loc)
             return
     rep.ok(rule, sub, f"dynamic module expression `{norm(arg)[:60]}` (no generator/foreign constant reaches it)", loc)
+
+
+# ------------------------------------------------------------------------------------------------ R12.6 nobody rewrites the runtime copies
+def rule_postprocess_skips_runtime_copies(repo: Repo, rep, rule: str = "R12.6") -> None:
+    """R12.3 shows that CoreEmitter writes the runtime modules verbatim; the only other writer of generated files in `generate()` is the
+    post-processor (formatters run in place).  Every list handed to `PostprocessManager(...).run(...)` must have passed a filter that
+    removes the paths built from RUNTIME_FILES."""
+    gen = repo.func("generator.client_generator:ClientGenerator.generate")
+    cls = gen.module.classes.get("ClientGenerator")
+    from sa.match import Locals as _L
+
+    GL = _L(gen.node)
+    runs = [c for c in calls_in(gen.node) if isinstance(c.func, ast.Attribute) and c.func.attr == "run" and c.args
+            and "PostprocessManager" in norm(GL.inline(c.func.value, stop=tuple(GL.params)))]
+    rep.count(f"{rule}:postprocess_calls", len(runs))
+    rep.require(len(runs) >= 1, f"{rule}: no PostprocessManager(...).run(...) call found in generate (anchor)")
+
+    def filters_runtime(scope: ast.AST, L) -> bool:
+        """a comprehension / filter in `scope` whose condition is `<path> not in <S>` with S derived from RUNTIME_FILES"""
+        for n in ast.walk(scope):
+            conds: List[ast.AST] = []
+            if isinstance(n, ast.comprehension):
+                conds = list(n.ifs)
+            elif isinstance(n, ast.If):
+                conds = [n.test]
+            for cnd in conds:
+                for x in ast.walk(cnd):
+                    if isinstance(x, ast.Compare) and len(x.ops) == 1 and isinstance(x.ops[0], ast.NotIn):
+                        src = L.inline(x.comparators[0], stop=tuple(L.params)) if L is not None else x.comparators[0]
+                        if "RUNTIME_FILES" in norm(src):
+                            return True
+        return False
+
+    for c in runs:
+        arg = GL.inline(c.args[0], stop=tuple(GL.params))
+        sub = f"{gen.module.relpath}:generate `{norm(c)[:60]}`"
+        ok = filters_runtime(arg, GL)
+        for h in [x for x in ast.walk(arg) if isinstance(x, ast.Call) and isinstance(x.func, ast.Attribute) and cls is not None and x.func.attr in cls.methods]:
+            hf = cls.methods[h.func.attr]
+            ok = ok or filters_runtime(hf.node, _L(hf.node))
+        if ok:
+            rep.ok(rule, sub, "the file list is filtered against the paths built from RUNTIME_FILES before the formatters run: the runtime copies stay byte-for-byte", gen.loc(c))
+        else:
+            rep.violation(rule, sub, f"{gen.fq}|postprocess-rewrites-runtime-copies",
+                          "the formatters (ruff format / isort / unused-import fixes, run in place) receive the runtime modules CoreEmitter copied verbatim: "
+                          "with the target project's defaults they are re-wrapped, so the core package no longer holds the shipped runtime byte for byte", gen.loc(c))
